@@ -244,6 +244,31 @@ fn run_woff(ctx: &Ctx) {
         let exp = Expect { flavor, tables: tables.clone() };
         let what = || json!({"container": "woff", "flavor": flavor, "tables": tables.iter().map(|t| (otmodel::tag_str(t.0), t.1.len())).collect::<Vec<_>>(), "compressed": done, "metadata": meta, "private": private, "file_hex": mcx::hex(&bytes)});
         let h = H::new().bytes(&bytes).get();
+        // History: before the well-formed file is read, the same thread reads a file whose first compressed table is
+        // corrupt (a byte of the zlib stream flipped / the stream cut in half / origLength overstated). What the
+        // well-formed file yields must not depend on that (decompressor state kept between calls would show here).
+        let predecessor = c.dev(4);
+        if predecessor > 0 {
+            if let Some(i) = done.iter().position(|d| *d) {
+                let mut bad = bytes.clone();
+                // the directory is sorted by tag: find the entry of table i
+                let e = (0..n).map(|k| 44 + 20 * k).find(|e| bad[*e..*e + 4] == tables[i].0.to_be_bytes()).expect("machinery: directory entry");
+                let off = u32::from_be_bytes([bad[e + 4], bad[e + 5], bad[e + 6], bad[e + 7]]) as usize;
+                let clen = u32::from_be_bytes([bad[e + 8], bad[e + 9], bad[e + 10], bad[e + 11]]) as usize;
+                match predecessor {
+                    1 => bad[off + clen / 2] ^= 0x55,
+                    2 => bad[e + 8..e + 12].copy_from_slice(&((clen / 2).max(1) as u32).to_be_bytes()),
+                    _ => bad[e + 12..e + 16].copy_from_slice(&0x0100_0000u32.to_be_bytes()),
+                }
+                let _ = guard(|| {
+                    if let Ok(f) = ReadScope::new(&bad).read::<WoffFont<'_>>() {
+                        for (t, _) in &tables {
+                            let _ = f.table_data(*t);
+                        }
+                    }
+                });
+            }
+        }
         let r = guard(|| {
             match ReadScope::new(&bytes).read::<WoffFont<'_>>() {
                 Ok(f) => {
